@@ -69,6 +69,7 @@ func (r *Rand) Bytes(n int) []byte {
 }
 
 var runePool = []rune{0, 1, '\t', '\n', '\r', 0x1b, ' ', '"', '\'', '\\', '/', '{', '}', ':', ',', '=', 'a', 'b', 'Z', '0', '9', '_', '-', '.',
+	'%', '%', '<', '>', '&', '[', ']', '*', '?', '$', '+', '|', '#', ';', '`', '~',
 	0x7f, 0x80, 0xa0, 0xe9, 0x3b1, 0x7ff, 0x800, 0x20ac, 0x4e16, 0xd7ff, 0xe000, 0xfeff, 0xfffd, 0xffff, 0x10000, 0x1f600, 0x10ffff, 0x2028, 0x2029}
 
 // UTF8 returns a valid-UTF-8 string of up to maxRunes runes mixing empty, control, ASCII and multi-byte characters.
@@ -94,6 +95,12 @@ func (r *Rand) UTF8(maxRunes int) string {
 			c = 0xfffd
 		}
 		out = append(out, c)
+		// text that some layer might re-interpret: printf verbs, escapes written out, entities
+		if i+2 < n && r.Chance(0.06) {
+			frag := []rune([]string{"%s", "%d", "%v", "%%", "%!", "\\n", "\\u", "&#"}[r.Intn(8)])
+			out = append(out, frag...)
+			i += 2
+		}
 	}
 	return string(out)
 }
